@@ -283,3 +283,53 @@ def group_input(ctx: Ctx, gname: str, tag="", sign=1, free_quat=False) -> GIn:
 
 def n_grp(gname):
     return groups()[gname].n_param
+
+
+# ---- angle-parametrised SO(3) elements (for log: the input is given by its rotation angle) ------
+
+def so3_angle_input(ctx: Ctx, rep: str, variant: str = "+", tag=""):
+    """element of SO(3) in representation `rep` for the rotation (phi, n), phi on a quarter lattice.
+    variants: Quat '+' / '-' (antipodal quaternion), Mrp 'inner' (|r| < 1, phi < pi) / 'shadow'
+    (|r| > 1, phi in (pi, 2pi) is the angle 4 atan|r|), Dcm '+'.  phi < pi except for 'shadow'."""
+    below = (variant != "shadow")
+    L = Lattice(ctx, f"phi{tag}", "quarter", below_pi=below)
+    if variant == "shadow":
+        ctx.assume(L.t.num_term() > 1)
+    a, b = Val.var(f"a{tag}"), Val.var(f"b{tag}")
+    n = s2_chart(a, b)
+    aux = dict(th=L.th, s=L.s, c=L.c, s2=L.s2, c2=L.c2, t4=L.tan4, n=n)
+    aux["R"] = rot_axis_angle(n, L.s, L.c)
+    if rep == "Quat":
+        q = [L.c2, L.s2 * n[0], L.s2 * n[1], L.s2 * n[2]]
+        if variant == "-":
+            q = [-x for x in q]
+            pi = ctx.pi()
+            comp = pi - L.th / 2  # angle whose cosine is -cos(phi/2); in (pi/2, pi)
+            ctx.angles.append(Angle(comp, sin=L.s2, cos=-L.c2, flags={"acos"}, name="pi-phi/2"))
+            ctx.angles.append(Angle(2 * comp, sin=-L.s, cos=L.c, name="2pi-phi"))
+            ctx.roots.append(comp)
+            ctx.roots.append(2 * comp)
+        params = q
+    elif rep == "Mrp":
+        params = [L.tan4 * n[0], L.tan4 * n[1], L.tan4 * n[2]]
+    elif rep == "Dcm":
+        params = V.vec(aux["R"])
+    else:
+        raise KeyError(rep)
+    return GIn(params, aux, [L])
+
+
+def group_angle_input(ctx, gname, variant, tag=""):
+    fam = family(gname)
+    rep = so3_of(gname)[3:]
+    g = so3_angle_input(ctx, rep, variant, tag)
+    if fam == "SO3":
+        return g
+    p = [Val.var(f"p{tag}{i}") for i in range(3)]
+    aux = dict(g.aux)
+    aux["p"] = p
+    if fam == "SE3":
+        return GIn(p + g.params, aux, g.lats)
+    v = [Val.var(f"v{tag}{i}") for i in range(3)]
+    aux["v"] = v
+    return GIn(p + v + g.params, aux, g.lats)
